@@ -101,5 +101,84 @@ theorem wf_zero : (0 : SMat K b b).WF := by
 
 end homs
 
+section pivots
+variable [Ring K] [DecidableEq K]
+attribute [local instance] smatMul
+
+/-- the hypothesis of the block theorems stated at the driver's carrier: the routine `invS` returns (buffers denoting)
+right inverses of the first diagonal block and of every pivot candidate met by the main loop -/
+def PivotsOKS (invS : SMat K b b → SMat K b b) (S : Skyline (SMat K b b) (SMat K b 1)) : Prop :=
+  (S.D.getD 0 0).toMatrix * (invS (S.D.getD 0 0)).toMatrix = 1 ∧
+  ∀ k Sk, k < S.n - 1 →
+    factorLoop SMat.isZero invS { S with D := S.D.setIfInBounds 0 (invS (S.D.getD 0 0)) } k = .ok Sk →
+    (pivotSum (factorStepLU Sk k) k).toMatrix * (invS (pivotSum (factorStepLU Sk k) k)).toMatrix = 1
+
+theorem pivotsOK_of_smat (invS : SMat K b b → SMat K b b) (S : Skyline (SMat K b b) (SMat K b 1))
+    (hD : ∀ i, (S.D.getD i 0).WF) (h : PivotsOKS invS S) :
+    PivotsOK (fun m : Matrix (Fin b) (Fin b) K => decide (m = 0)) (fun m => (invS (ofMatrix m)).toMatrix)
+      (S.map SMat.toMatrix toVec) := by
+  have t := testHom_toMatrix (K := K) (b := b) invS
+  constructor
+  · have e0 : (S.map SMat.toMatrix toVec).D.getD 0 0 = (S.D.getD 0 0).toMatrix :=
+      getD_map SMat.toMatrix SMatNC.toMatrix_zero S.D 0
+    rw [e0]
+    show (S.D.getD 0 0).toMatrix * (invS (ofMatrix (S.D.getD 0 0).toMatrix)).toMatrix = 1
+    rw [ofMatrix_toMatrix _ (hD 0)]
+    exact h.1
+  · intro k Sk' hk hrun
+    obtain ⟨Sk, hrunS, hG, hp⟩ := pivots_map toVec opHom_toMatrix t S hD k Sk' hrun
+    rw [hp]
+    show (pivotSum (factorStepLU Sk k) k).toMatrix
+      * (invS (ofMatrix (pivotSum (factorStepLU Sk k) k).toMatrix)).toMatrix = 1
+    rw [ofMatrix_toMatrix _ hG]
+    exact h.2 k Sk hk hrunS
+
+end pivots
+
+/-! ### example data at the driver's carrier: the blocks of `exAB` as array-backed static matrices -/
+section example_data
+attribute [local instance] smatMul
+
+/-- inverse routine of the example: `inv2` on the denoted matrix (a partial inverse, exact on unimodular blocks) -/
+def invS2 (a : SMat ℤ 2 2) : SMat ℤ 2 2 := ofMatrix (inv2 a.toMatrix)
+
+def exAS : CRS (SMat ℤ 2 2) :=
+  ⟨2, #[[(0, ⟨#[1, 1, 0, 1]⟩), (1, ⟨#[0, 1, 1, 0]⟩)], [(1, ⟨#[0, 1, 1, 2]⟩), (0, ⟨#[1, 0, 1, 1]⟩)]]⟩
+
+def exFacS : Skyline (SMat ℤ 2 2) (SMat ℤ 2 1) :=
+  ⟨2, #[0, 1], #[0, 0, 1], #[⟨#[1, 0, 1, 1]⟩], #[⟨#[-1, 1, 1, 0]⟩], #[⟨#[1, -1, 0, 1]⟩, ⟨#[1, 0, -1, 1]⟩], #[0, 0]⟩
+
+theorem exS_factorize :
+    factorize SMat.isZero invS2 (build (R := SMat ℤ 2 1) SMat.isZero exAS #[0, 1]) = .ok exFacS := by rfl
+
+theorem exAS_wf : exAS.WF := by decide
+
+theorem exAS_nodup : ∀ i, ((exAS.row i).map (·.1)).Nodup := by
+  intro i
+  rcases Nat.lt_or_ge i 2 with h | h
+  · interval_cases i <;> simp [CRS.row, exAS]
+  · have : exAS.row i = [] := by
+      unfold CRS.row; simp [Array.getD, exAS]; omega
+    rw [this]; simp
+
+theorem exAS_blocks : ∀ i, ∀ cv ∈ exAS.row i, cv.2.WF := by
+  intro i
+  rcases Nat.lt_or_ge i 2 with h | h
+  · interval_cases i <;> simp [CRS.row, exAS, SMat.WF]
+  · have : exAS.row i = [] := by
+      unfold CRS.row; simp [Array.getD, exAS]; omega
+    rw [this]; simp
+
+theorem exS_pivotsOK : PivotsOKS invS2 (build (R := SMat ℤ 2 1) SMat.isZero exAS #[0, 1]) := by
+  refine ⟨by decide, ?_⟩
+  intro k Sk hk hrun
+  have hk0 : k = 0 := by have : k < 1 := hk; omega
+  subst hk0
+  injection hrun with e
+  subst e
+  decide
+
+end example_data
+
 end SkyNC
 end Amgcl
